@@ -1510,6 +1510,13 @@ def affine(canon, e, fr, env=None, _d=0):
             return minmax_term(e.func.id, affs)
         if e.func.id == 'len' and len(e.args) == 1:
             return Affine({'len(%s)' % canon.c(e.args[0], fr): 1})
+        if e.func.id == 'sum' and 1 <= len(e.args) <= 2 and not e.keywords:
+            parts = fold_parts(canon, e.args[0], fr, env, d)
+            if parts is not None and not parts[1]:
+                tot = affine(canon, e.args[1], fr, env, d) if len(e.args) == 2 else Affine()
+                for x in parts[0]:
+                    tot = tot + x
+                return tot
     return Affine({canon.c(e, fr): 1})
 
 
